@@ -364,7 +364,8 @@ func checkHistory(c histCase, r *h.Rec) error {
 			}
 		}
 		sBa := c.args(sB, enc(e.B.R), A.uid)
-		keyAret, sAret, err := ini.ConfirmResponder(clonePub(RBwire), sBa.v[0])
+		rbArg := clonePub(RBwire)
+		keyAret, sAret, err := ini.ConfirmResponder(rbArg, sBa.v[0])
 		if err != nil {
 			return fmt.Errorf("ConfirmResponder (after %q): %v%s", fail, err, rd)
 		}
@@ -418,8 +419,28 @@ func checkHistory(c histCase, r *h.Rec) error {
 		if k2, err := res.ConfirmInitiator(cp(sA)); err != nil || !bytes.Equal(k2, e.key) {
 			return fmt.Errorf("second ConfirmInitiator: key=%x err=%v, want %x%s", k2, err, e.key, rd)
 		}
-		if k2, s2, err := ini.ConfirmResponder(clonePub(RBwire), cp(sB)); err != nil || !bytes.Equal(k2, e.key) || !bytes.Equal(s2, sA) {
+		rbArg2 := clonePub(RBwire)
+		if k2, s2, err := ini.ConfirmResponder(rbArg2, cp(sB)); err != nil || !bytes.Equal(k2, e.key) || !bytes.Equal(s2, sA) {
 			return fmt.Errorf("second ConfirmResponder: key=%x sA=%x err=%v, want %x %x%s", k2, s2, err, e.key, sA, rd)
+		}
+		if c.Destroy && i == rounds-1 {
+			// The initiator is done and destroys its object while the responder's object
+			// is still in use (seeded change C08-9-1: Destroy also wiped the public-key objects
+			// the caller had passed in, so with shared pointers the other party's R_A /
+			// R_B turned into (0,0)). Objects handed to the library stay the caller's.
+			r.Label("initiator destroyed while the responder object is still in use")
+			if p := callNoPanic(func() { ini.Destroy() }); p != "" {
+				return fmt.Errorf("Destroy panicked: %s%s", p, rd)
+			}
+			if !pubEq(rbArg, e.B.R) || !pubEq(rbArg2, e.B.R) {
+				return fmt.Errorf("Destroy of the initiator object modified the R_B object the caller had passed to ConfirmResponder: now %s, was %s%s", pubHex(rbArg), ptHex(e.B.R), rd)
+			}
+			if !pubEq(RAwire, e.A.R) || !pubEq(RBwire, e.B.R) {
+				return fmt.Errorf("Destroy of the initiator object modified a public-key object held by the caller%s", rd)
+			}
+			if k2, err := res.ConfirmInitiator(cp(sA)); err != nil || !bytes.Equal(k2, e.key) {
+				return fmt.Errorf("ConfirmInitiator after the OTHER party destroyed its object: key=%x err=%v, want %x%s", k2, err, e.key, rd)
+			}
 		}
 		prevS2 = e.s2
 
